@@ -206,7 +206,7 @@ def run(chk):
     else:
         chk.ob("R-FWD", cc, "one call reaching the response routine", False, derived="%d" % len(calls), loc=r.fi.loc())
     from .c03 import xi_sentinel
-    xi_sentinel(chk, P.fn(ACC + ".response_series"), cc, "R-FWD")
+    xi_sentinel(chk, P.fn(ACC + ".response_series"), cc, "R-FWD", cls_q=ACC)
     chk.floor("R-NJ-COEF", 8)
     chk.floor("R-NJ-REC", 5)
     chk.floor("R-T0", 5)
